@@ -367,11 +367,13 @@ pub fn check_text(inst: &Inst, twin: Option<&Inst>, text: &str, t: &mut Tally) {
 
 /// symbol -> item text
 fn symbol_text(inst: &Inst, sym: usize, pos: usize) -> String {
-    const KEYS: [&str; 4] = ["a", "b", "a::b", "::a"];
+    // each key slot rotates through spellings by position: raw identifiers (a different key from
+    // the plain spelling), and paths headed by a path keyword
+    const KEYS: [[&str; 3]; 4] = [["a", "r#a", "a"], ["b", "b", "r#type"], ["a::b", "crate::b", "a::r#b"], ["::a", "self", "super::a"]];
     if sym == 8 {
         return ["\"lit\"", "-1", "true", "5", "-1.5"][pos % 5].to_string();
     }
-    let key = KEYS[sym / 2];
+    let key = KEYS[sym / 2][pos % 3];
     let val = if sym % 2 == 0 { (inst.good)(pos) } else { (inst.bad)(pos) };
     format!("{key}{val}")
 }
@@ -504,7 +506,7 @@ pub fn main(args: &Args) {
     rep.set("max_list_len", json!(maxlen));
     rep.set("repetition_patterns", json!(n_patterns));
     rep.rule = format!(
-        "25 map instantiations (Hash/BTree x String/Ident/Path keys x bool,u8,String,Expr,nested map values). (1) every item list of length 0..{maxlen} over 9 symbols (keys a, b, a::b, ::a each with a good or bad value, and a literal item; value spellings rotate with position); (2) every key-repetition pattern (restricted-growth strings) up to length {rgs_len} x every good/bad mask, plus structured lists of length 9..12. Reference model: literal -> 1 leaf; unconvertible key -> 1 leaf (+ the value's own leaves); repeated key -> 1 duplicate leaf (+ value leaves); value leaves = V::from_meta(item) located under the key; Ok iff no leaf, then entries equal; HashMap and BTreeMap twins compared on every input. states = lists explored; non-trivial = lists the model rejects."
+        "25 map instantiations (Hash/BTree x String/Ident/Path keys x bool,u8,String,Expr,nested map values). (1) every item list of length 0..{maxlen} over 9 symbols (four key slots - a / r#a, b / r#type, a::b / crate::b / a::r#b, ::a / self / super::a, spellings rotating with position - each with a good or bad value, and a literal item rotating through \"lit\", -1, true, 5, -1.5; value spellings rotate with position); (2) every key-repetition pattern (restricted-growth strings) up to length {rgs_len} x every good/bad mask, plus structured lists of length 9..12. Reference model: literal -> 1 leaf; unconvertible key -> 1 leaf (+ the value's own leaves); repeated key -> 1 duplicate leaf (+ value leaves); value leaves = V::from_meta(item) located under the key; Ok iff no leaf, then entries equal; HashMap and BTreeMap twins compared on every input. states = lists explored; non-trivial = lists the model rejects."
     );
     rep.assumptions = vec!["the element type's own conversion (V::from_meta) defines the per-item value outcome".into(), "String key conversion = path segments joined by `::`".into()];
     rep.tally.samples.push(json!({"inst": "HashMap<String,u8>", "list": "a = 300, b = 11, a = 12, \"lit\"", "expect_leaves": ["value error at a", "Duplicate field `a`", "Unexpected meta-item format `expression`"]}));
